@@ -17,7 +17,9 @@ EXTENDS Mem, TLC
 
 CONSTANTS NT, NG, NCells, NNodes, MaxOps, MaxFlush, Ord,
           CheckOld,      \* TRUE: try_update_epoch refuses while an active thread is still in the previous epoch (code)
-          FullCycle      \* TRUE: orphans get the target epoch global - 1, a full cycle away (code); FALSE: the current epoch
+          FullCycle,     \* TRUE: orphans get the target epoch global - 1, a full cycle away (code); FALSE: the current epoch
+          ConfirmEpoch   \* TRUE: a thread that (re)activates its record confirms with a CAS that the global epoch did not move since it
+                         \* published its local epoch, and retries otherwise (code); FALSE: publishes what it read once (seeded change c17_2)
 
 OrdCode == [a_ld1 |-> "rlx", a_ld2 |-> "acq", b_ldge |-> "rlx", b_stle |-> "rlx", b_cas |-> "ar", q_ldge |-> "acq", q_ldle |-> "rlx",
             t_ldle |-> "rlx", t_act |-> "rlx", t_ldge |-> "rlx", t_fence |-> "acq", t_cas |-> "ar", casf |-> "rlx", t_adopt |-> "acq",
@@ -122,7 +124,7 @@ b_ldge(t) == /\ pc[t] = "b_ldge"
              /\ Goto(t, "b_stle") /\ UG
 b_stle(t) == /\ pc[t] = "b_stle"
              /\ Store(t, LE(t), loc[t].epoch, Ord["b_stle"]) /\ Acc(t, "st", "b_stle", loc[t].epoch, 1)
-             /\ Goto(t, "b_cas") /\ UNCHANGED loc /\ UG
+             /\ Goto(t, IF ConfirmEpoch THEN "b_cas" ELSE loc[t].after) /\ UNCHANGED loc /\ UG
 b_cas(t) == /\ pc[t] = "b_cas"
             /\ IF Latest(GE) = loc[t].epoch
                  THEN /\ Rmw(t, GE, loc[t].epoch, Ord["b_cas"]) /\ Acc(t, "cas", "b_cas", loc[t].epoch, 1) /\ Goto(t, loc[t].after) /\ UNCHANGED loc
